@@ -34,8 +34,8 @@ CONSTANTS
 INVARIANT TraceInv
 """
 OPS = ["cumsum", "cumsum_na", "cummin", "cummax", "cumcount"]
-EMBS_Q = ["f64", "f32", "i64", "i64big", "i32", "u8", "bool", "M8ns", "m8ns", "M8s"]
-EMBS_T = EMBS_Q + ["i8", "u64", "M8us", "m8s", "M8ns0"]
+EMBS_Q = ["f64", "f32", "i64", "i64big", "i32", "u8", "bool", "M8ns", "m8ns", "M8s", "i8lo"]
+EMBS_T = EMBS_Q + ["i8", "u64", "M8us", "m8s", "M8ns0", "i16lo", "i32lo"]
 
 
 def mk(rng, op, keys, vals, sel, embs, level=None):
@@ -47,6 +47,8 @@ def mk(rng, op, keys, vals, sel, embs, level=None):
             continue
         if op == "cumsum_na" and e.kind not in "f":
             continue      # "a null makes the running sum null": only floats can carry a null sum
+        if emb.endswith("lo") and op in ("cumsum", "cumsum_na"):
+            continue      # bottom-of-range embeddings: running extremes and counts only
         break
     else:
         emb = "f64"
@@ -102,7 +104,7 @@ def build_cases(tier, seed):
         cases.append(mk(rng, rng.pick(OPS), keys, vals, sel, embs))
     # long groups: running counts / sums beyond the ranges of 8- and 16-bit integers (codes of categorical and boolean
     # keys are int8, small value dtypes are 8 bit)
-    sizes = [129, 200, 300] if tier == "quick" else [129, 200, 300, 1000, 5000]   # (every row is one TLC state holding the row history: 66000-row traces took > 20 min each)
+    sizes = [129, 200, 300] if tier == "quick" else [129, 200, 300, 1000]   # (every row is one TLC state holding the row history: 66000-row traces took > 20 min each)
     for s_ in sizes:
         for kenc, ids in [("cat", [1, 2]), ("catperm", [3, 1]), ("f64", [1, 2]), ("i64", [1, 2])]:
             keys = []
@@ -116,6 +118,20 @@ def build_cases(tier, seed):
                 vals = [1 + (j % 3) for j in range(len(keys))]
                 cases.append(dict(op=op, keys=keys, vals=vals, emb=emb, level="api", kenc=kenc, vcont=rng.pick(["np", "series"])))
     return cases
+
+
+def long_cases(tier):
+    """groups of 33000 / 66000 (thorough: 140000) rows on the periodic input of Trace_GBCumulative's long mode."""
+    out = []
+    for n in ([33000, 66000] if tier == "quick" else [33000, 66000, 140000]):
+        keys = [NULL if r % 90 == 0 else 2 if r % 50 == 0 else 1 for r in range(1, n + 1)]
+        plan = [("cumcount", "f64", "cat"), ("cumsum", "i8", "f64"), ("cummax", "i16", "catperm"), ("cummin", "f64", "f64")] if tier == "quick" else \
+               [("cumcount", "f64", "cat"), ("cumcount", "f64", "f64"), ("cumsum", "i8", "f64"), ("cumsum", "u8", "cat"), ("cumsum", "i64", "f64"), ("cumsum", "f64", "catperm"),
+                ("cummax", "i16", "catperm"), ("cummax", "f64", "f64"), ("cummin", "f64", "f64"), ("cummin", "i8", "cat")]
+        for op, emb, kenc in plan:
+            vals = [(2 if r % 7 == 0 else 1) if op == "cummax" else (1 if r % 7 == 0 else 2) if op == "cummin" else 1 for r in range(1, n + 1)]
+            out.append(dict(op=op, keys=list(keys), vals=vals, emb=emb, level="api", kenc=kenc, vcont="np", long=1))
+    return out
 
 
 def nontrivial(t):
@@ -145,6 +161,13 @@ def run(tier):
     rej = ck.validate("Trace_GBCumulative", traces, TRACE_CFG.format(diag="FALSE"), "traces", nontrivial=nontrivial,
                       diag_cfg=TRACE_CFG.format(diag="TRUE").replace("INVARIANT TraceInv\n", ""))
     ck.judge(rej, "Trace_GBCumulative", {})
+    # long groups, closed-form definition (one TLC run per trace: the JSON of a 140000-row trace is large)
+    tl = ck.drive(rowwise.run_cum, long_cases(tier), warm_cases=[], procs=4)
+    for k, t in enumerate(tl):
+        rej = ck.validate("Trace_GBCumulative", [t], TRACE_CFG.format(diag="FALSE"), f"long{k}", nontrivial=lambda t: True,
+                          key=lambda t: json.dumps([t["op"], len(t["keys"]), t["emb"], t["cfg"].get("kenc")]))
+        ck.judge(rej, None, {})
+    ck.notes["long_runs"] = [[t["op"], len(t["keys"]), t["emb"], t["cfg"].get("kenc")] for t in tl]
     ck.assumptions += ["value embeddings / projection trusted; outputs at null-key and unselected rows are not judged by C08 (C06/C05 judge them)",
                        "cumsum without null skipping is judged on float values only (no other dtype can carry a null sum)"]
     return ck.finish()
